@@ -56,7 +56,6 @@ def showObs (op : Op) : Obs → String
 
 def showAbort : Abort → String
   | .default => "default" | .invalid => "invalid" | .panic => "panic" | .removal => "removal"
-  | .unreferenced => "internal:runtime.UnreferencedRootSlabsError"
 
 def zipShow : List Op → List Obs → List String
   | op :: ops, o :: os => showObs op o :: zipShow ops os
@@ -121,13 +120,12 @@ def judge (op : List String) (go : String) : Verdict :=
       let rendered := (hist.zip obs).map fun (tx, o) => showTx tx o
       let model := "|".intercalate rendered
       let tags := dedup ((hist.zip obs).flatMap fun (tx, o) => txTags tx o)
-      if go == model then
-        -- known defect modelled by the machine: a contract added and removed in one transaction leaves
-        -- its value's slabs unreferenced; the specification (add then remove = nothing deployed) wants `ok`
-        if obs.any (fun o => o.outcome == some .unreferenced) then
-          .violation "add-remove-same-tx-unreferenced-slabs"
-            "a transaction that adds and then removes the same contract must succeed and leave nothing deployed" tags
-        else .ok ("!nt" :: tags)
+      if go == model then .ok ("!nt" :: tags)
+      else if (go.splitOn "internal:runtime.UnreferencedRootSlabsError").length > 1 then
+        -- fixed by 2936d79 in /repo: a contract added and removed in one transaction left its value's slabs
+        -- unreferenced; the specification (add then remove = nothing deployed) wants `ok`
+        .violation "add-remove-same-tx-unreferenced-slabs"
+          ("a transaction that adds and then removes the same contract must succeed and leave nothing deployed; machine: " ++ model) tags
       else
         let d := firstDiff hist rendered (go.splitOn "|")
         match d.splitOn " " with
